@@ -13,6 +13,58 @@ var (
 	chClosed = HeapKey{"CH$closed", "(Array Int Bool)"}
 )
 
+var (
+	chSentN    = HeapKey{"CH$sentN", "(Array Int Int)"}
+	chRecvN    = HeapKey{"CH$recvN", "(Array Int Int)"}
+	chLastSend = HeapKey{"CH$lastSend", "Int"}
+	chLastRecv = HeapKey{"CH$lastRecv", "Int"}
+)
+
+// Message log of a channel (trusted FIFO model): CH$msg$T[ch][k] is the k-th value ever sent on ch, sentN / recvN count
+// completed sends / receives.  Other goroutines only make the counters grow; entries of the log are never rewritten.
+func chMsgKey(et types.Type, c comp) HeapKey {
+	return HeapKey{"CH$msg$" + sanitize(typeStr(et)) + c.suffix, "(Array Int (Array Int " + c.sort + "))"}
+}
+
+func (fx *FuncCtx) chanLogSend(st *State, ch string, et types.Type, v Val) {
+	if len(v.C) == 0 {
+		return
+	}
+	cs := fx.mode.comps(et)
+	if len(cs) != len(v.C) {
+		return
+	}
+	sn := fx.heapGet(st.heap, chSentN)
+	n := sx("select", sn, ch)
+	st.assume(sx(">=", n, "0"))
+	for i, c := range cs {
+		k := chMsgKey(et, c)
+		cur := fx.heapGet(st.heap, k)
+		fx.heapSet(st, k, sx("store", cur, ch, sx("store", sx("select", cur, ch), n, v.C[i])))
+	}
+	fx.heapSet(st, chLastSend, n)
+	fx.heapSet(st, chSentN, sx("store", sn, ch, sx("+", n, "1")))
+	fx.trusted["channel message log: a channel delivers the values sent on it in the order of the sends (FIFO), each once"] = true
+}
+
+// chanLogRecv constrains the received value v (when ok) to be the next unreceived message of the log.
+func (fx *FuncCtx) chanLogRecv(st *State, ch string, et types.Type, v Val, ok string) {
+	cs := fx.mode.comps(et)
+	if len(v.C) == 0 || len(cs) != len(v.C) {
+		return
+	}
+	rn := fx.heapGet(st.heap, chRecvN)
+	n := sx("select", rn, ch)
+	st.assume(sx(">=", n, "0"))
+	st.assume(implies(ok, sx("<", n, sx("select", fx.heapGet(st.heap, chSentN), ch))))
+	for i, c := range cs {
+		k := chMsgKey(et, c)
+		st.assume(implies(ok, eq(v.C[i], sx("select", sx("select", fx.heapGet(st.heap, k), ch), n))))
+	}
+	fx.heapSet(st, chLastRecv, n)
+	fx.heapSet(st, chRecvN, sx("store", rn, ch, ite(ok, sx("+", n, "1"), n)))
+}
+
 // other goroutines may change channel state at any time, but closed channels stay closed.
 // While a lock is held, channel state observed by this function is treated as stable (trusted: channels whose
 // state is tied to a monitor invariant are only closed / drained under that monitor's lock).
@@ -34,6 +86,18 @@ func (fx *FuncCtx) chanHavoc(st *State) {
 	nl := fx.decls.fresh("CH$len", chLen.Sort)
 	fx.keySorts[chLen.Key] = chLen.Sort
 	st.heap[chLen.Key] = nl
+	for _, ck := range []HeapKey{chSentN, chRecvN} {
+		if _, used := st.heap[ck.Key]; !used {
+			continue
+		}
+		oldN := fx.heapGet(st.heap, ck)
+		nn := fx.decls.fresh(ck.Key, ck.Sort)
+		fx.decls.n++
+		qq := fmt.Sprintf("q$ch!%d", fx.decls.n)
+		st.assume("(forall ((" + qq + " Int)) (! " + sx(">=", sx("select", nn, qq), sx("select", oldN, qq)) + " :pattern (" + sx("select", nn, qq) + ")))")
+		fx.keySorts[ck.Key] = ck.Sort
+		st.heap[ck.Key] = nn
+	}
 	fx.trusted["channel model: buffered length, capacity, closed flag; closed is monotone; other goroutines may change length/closed whenever no lock is held"] = true
 }
 
@@ -91,6 +155,7 @@ func (fx *FuncCtx) selectModel(st *State, in *ssa.Select) {
 					s.assume(implies(and(closed, eq(l, "0")), not(ok)))
 					s.assume(implies(not(closed), ok))
 					fx.heapSet(s, chLen, sx("store", fx.heapGet(s.heap, chLen), ch, ite(sx(">", l, "0"), sx("-", l, "1"), l)))
+					fx.chanLogRecv(s, ch, sc.Chan.Type().Underlying().(*types.Chan).Elem(), v, ok)
 				}
 				res.Tup = append(res.Tup, v)
 				ri++
@@ -117,6 +182,7 @@ func (fx *FuncCtx) selectModel(st *State, in *ssa.Select) {
 			l := fx.chLenOf(s, ch)
 			c := sx("select", fx.heapGet(s.heap, chCap), ch)
 			fx.heapSet(s, chLen, sx("store", fx.heapGet(s.heap, chLen), ch, ite(sx("<", l, c), sx("+", l, "1"), l)))
+			fx.chanLogSend(s, ch, in.States[i].Chan.Type().Underlying().(*types.Chan).Elem(), cases[i].val)
 		}
 		s.assume(not(eq(ch, "0")))
 		mkResult(s, i)
@@ -232,6 +298,7 @@ func (fx *FuncCtx) sendModel(st *State, in *ssa.Send) {
 	l := fx.chLenOf(st, ch)
 	c := sx("select", fx.heapGet(st.heap, chCap), ch)
 	fx.heapSet(st, chLen, sx("store", fx.heapGet(st.heap, chLen), ch, ite(sx("<", l, c), sx("+", l, "1"), l)))
+	fx.chanLogSend(st, ch, in.Chan.Type().Underlying().(*types.Chan).Elem(), fx.val(st, in.X))
 }
 
 func (fx *FuncCtx) recvModel(st *State, in *ssa.UnOp, chv Val) {
@@ -250,6 +317,7 @@ func (fx *FuncCtx) recvModel(st *State, in *ssa.UnOp, chv Val) {
 	st.assume(implies(and(closed, eq(l, "0")), not(ok)))
 	st.assume(implies(not(closed), ok))
 	fx.heapSet(st, chLen, sx("store", fx.heapGet(st.heap, chLen), ch, ite(sx(">", l, "0"), sx("-", l, "1"), l)))
+	fx.chanLogRecv(st, ch, et, v, ok)
 	if in.CommaOk {
 		st.regs[in] = Val{T: in.Type(), Tup: []Val{v, {T: BoolT, C: []string{ok}}}}
 		return
